@@ -198,7 +198,9 @@ Fixpoint runs_ok (c : case) (runs : list runrec) (rec : option Z) : bool :=
       (match rr_kill r with Some _ => true | None => false end ||
        negb (has_kind (fun k => match k with KDelete => true | _ => false end) l) ||
        has_kind (fun k => match k with KStore => true | _ => false end) l) &&
-      runs_ok c rest (if stored_ok l then Some (rr_t0 r) else rec)
+      (* a Store of the record that reported an error may or may not have taken effect: nothing is known of the
+         record afterwards *)
+      runs_ok c rest (if stored_ok l then Some (rr_t0 r) else if stored_any l then None else rec)
   end.
 
 Definition rec0 (s0 : store) : option Z :=
